@@ -78,7 +78,29 @@ func c09MakeBase(r *RNG) c09Base {
 			b.maxIsIdentity = x.Cid.Prefix().MhType == mh.IDENTITY
 		}
 	}
+	{
+		// the stores look a key up by multihash and read the FIRST section carrying it: if another block
+		// shares the largest block's multihash (same data under another codec: a shorter CID), Get may
+		// legitimately never touch the largest section
+		n := 0
+		for _, x := range b.blks {
+			if bytes.Equal(x.Cid.Hash(), mustCast(b.maxKey).Hash()) {
+				n++
+			}
+		}
+		if n > 1 {
+			b.maxIsIdentity = true
+		}
+	}
 	return b
+}
+
+func mustCast(b []byte) cid.Cid {
+	c, err := cid.Cast(b)
+	if err != nil {
+		panic(err)
+	}
+	return c
 }
 
 func (b *c09Base) rootBytes() [][]byte {
@@ -274,6 +296,15 @@ func c09ExpectFor(j *c09Job, in *c09Input, row c09Row) c09Expect {
 		// what it then parses is not the header, so no limit expectation is attached
 		return c09Expect{kind: "none"}
 	}
+	if e == c09ELoadIndex && in.v2 && len(j.Choice) > 0 && j.Choice[0]%4 == 2 {
+		// ReadOrGenerateIndex on a CARv2 that carries an index decodes that index and never parses the payload
+		return c09Expect{kind: "none"}
+	}
+	if e == c09EBrSkip && !in.v2 && j.Flavour == 2 {
+		// Reader.DataReader() of a CARv1 cannot report its size: SkipNext answers with an error (it used to
+		// panic, notes/fixes/C09-offset-reader-seekend.patch) before it gets to the section in question
+		return c09Expect{kind: "none"}
+	}
 	if !in.valid || (row.hdr == "" && row.sec == "") {
 		return c09Expect{kind: "none"}
 	}
@@ -387,7 +418,7 @@ func c09Produce(c *Ctx) {
 	var plan []c09Planned
 	nBase := 2 * c.Scale
 	truncStride := 1
-	corrupt := 24
+	corrupt := 48
 	for a := 0; a < nBase; a++ {
 		r := c.R.Fork()
 		b := c09MakeBase(r)
@@ -429,9 +460,6 @@ func c09Produce(c *Ctx) {
 			c09Plan(r, &plan, in, rowFor(), c09CarEntries)
 		}
 		for k := 0; k < len(v2file); k += truncStride {
-			if k > 60+int(dpad) && k < len(v2file)-8 && r.Intn(3) != 0 && !c.Thorough {
-				continue
-			}
 			c09Plan(r, &plan, mk(v2file[:k], "trunc-v2", true, false), rowFor(), c09CarEntries)
 		}
 		// length varints and CID digest lengths, bare and re-wrapped in a consistent CARv2 container
